@@ -30,6 +30,8 @@ CLAIMED = {
              ref='DESIGN.md §4 C05 (revised: program level)', note='Same trusted base as C04.'),
  'C08': dict(text='As C04 with faulting streams: 0..=3 symbolic input lines (last with / without terminator), output and input streams failing from any call index on; write records, read counts and outcome compared with the reference.',
              ref='DESIGN.md §4 C08 (revised: program level)', note='Write / BufRead are environment models, one record per call.'),
+ 'C09': dict(text='Program-level bounded model checking of crash freedom: ~50 crash-oriented templates plus all C04/C05/C08 templates run through the real parser and interpreter in the VM with symbolic placeholder values; every feasible panic / debug-assert / unwrap / unchecked / overflow / RefCell edge is a finding, every produced RuntimeError is rendered; plus a regenerated inventory of the interpreter\'s crash sites whose functions must all have been executed (ProduceValOutput\'s unimplemented!() defaults are excused only by a call-closure argument recomputed from the MIR).',
+             ref='DESIGN.md §4 C09 (revised: program level + inventory)', note='Programs outside the templates are not covered; the inventory bounds the gap to edges needing a state no template reaches.'),
  'C15': dict(text='Metamorphic bounded model checking: each template is run by the real parser + interpreter in its original spelling and under every naming scheme (simple / common / proper names, re-cased, fresh), per-mention re-casing and keyword re-casing; z3 shows equal outputs and outcomes for all placeholder values.',
              ref='DESIGN.md §4 C15 (revised: program level)', note='No reference interpreter involved.  ASCII names.'),
 }
